@@ -200,6 +200,73 @@ def r16_3(ctx, fx):
     ctx.floor(rid, len(keys), 14, "explicitly specialised members")
 
 
+ADDITIVE_CALLS = ("add_mul_assign", "sub_mul_assign", "add_assign_r", "sub_assign_r")
+
+
+def _deref_of(f, n):
+    """Name of the local iterator `it` if n is `*it` (possibly parenthesised / cast), else None."""
+    n = f.deref(n)
+    while n is not None and n["k"] in ("cast", "paren") and n.get("c"):
+        n = f.deref(n["c"][0])
+    if n is not None and n["k"] in ("unop", "ocall") and n.get("op") == "*" and n.get("c"):
+        x = f.deref(n["c"][0])
+        while x is not None and x["k"] in ("cast", "paren") and x.get("c"):
+            x = f.deref(x["c"][0])
+        if x is not None and x["k"] == "ref" and x.get("dk") in ("local", "param"):
+            t = x.get("t", "")
+            if "iterator" in t and "const_iterator" not in t and ("Sparse_Row" in t or "CO_Tree" in t):
+                return x["n"]
+    return None
+
+
+def r16_4(ctx):
+    from pplv import flow
+    rid = "R16.4"
+    ctx.rule(rid, "no stored zeros: a sparse row stores only non-zero coefficients (is_zero(), all_zeroes(), iteration, equality with a dense row rely on it). In Sparse_Row.cc every additive in-place update of an element reached through a Sparse_Row / CO_Tree iterator (`*it += e`, `*it -= e`, add_mul_assign(*it, ...), sub_mul_assign(*it, ...)), which may cancel to zero, is followed on every path by a test of `*it` against zero before the iterator is advanced, reassigned or the function returns")
+    fx = ctx.extract([F.lib_unit("Sparse_Row.cc")])
+    n = 0
+    seen = set()
+    for f in fx.functions:
+        if f.flag("pattern") or not f.cfg or (f.relfile, f.line) in seen:
+            continue
+        seen.add((f.relfile, f.line))
+        k_in_f = [0]
+        for e in f.walk():
+            it = None
+            if e["k"] in ("assign", "ocall") and e.get("op") in ("+=", "-="):
+                it = _deref_of(f, e["c"][0])
+            elif e["k"] == "call" and f.call_name(e) in ADDITIVE_CALLS and f.call_args(e):
+                it = _deref_of(f, f.call_args(e)[0])
+            if it is None or f.cfg_pos(e) is None:
+                continue
+            n += 1
+            k_in_f[0] += 1
+            inst = "%s(%s): additive update of *%s [%d]" % (f.name, ", ".join(p["t"].split("::")[-1] for p in f.params[:2]), it, k_in_f[0])
+
+            def zero_test(tc, taken, it=it):
+                t = f.text(tc).replace(" ", "").replace("(", "").replace(")", "")
+                return t in ("*%s==0" % it, "*%s!=0" % it, "0==*%s" % it, "0!=*%s" % it)
+
+            def moved(y, it=it):
+                if y["k"] in ("assign", "ocall") and y.get("op") == "=" and f.deref(y["c"][0]) is not None \
+                        and f.deref(y["c"][0])["k"] == "ref" and f.deref(y["c"][0]).get("n") == it:
+                    return True
+                if y["k"] in ("unop", "ocall") and y.get("op") in ("++", "--") and y.get("c") and f.deref(y["c"][0]) is not None \
+                        and f.deref(y["c"][0])["k"] == "ref" and f.deref(y["c"][0]).get("n") == it:
+                    return True
+                return False
+            ex = flow.Explorer(f)
+            p1 = ex.find_path(f.cfg_pos(e), lambda y: False, moved, edge_blocked=zero_test)
+            p2 = ex.find_path(f.cfg_pos(e), lambda y: False, "EXIT", edge_blocked=zero_test) if p1 is None else None
+            # a path that first moves the iterator is found by p1; p2 catches a return without test
+            if p1 is not None or p2 is not None:
+                ctx.violation(rid, inst, f.where(e), "after `%s` the element may be zero, but a path %s without testing `*%s == 0`: the sparse row keeps an explicit zero (%s)" % (
+                    f.text(e)[:40], "moves the iterator on" if p1 is not None else "returns", it, flow.render_path(f, p1 or p2)))
+            else:
+                ctx.ok(rid, inst, f.where(e))
+    ctx.floor(rid, n, 12, "additive in-place updates through sparse iterators")
+
+
 def units():
     return [F.driver_unit("linexpr_impl.cc", file_re=r"Linear_Expression_Impl"),
             F.lib_unit("Linear_Expression.cc"),
@@ -217,3 +284,4 @@ def run(ctx):
     r16_1(ctx, fx)
     r16_2(ctx, fx)
     r16_3(ctx, fx)
+    r16_4(ctx)
